@@ -1,4 +1,5 @@
 import DashLive.Model.Events
+import DashLive.Model.Scte35
 import DashLive.Driver.Util
 /-! channels of the C14 event-scheduling model
 
@@ -10,7 +11,7 @@ import DashLive.Driver.Util
   → hex of the encoded box
 * `emsgparse <hex>` → `version flags schemehex valuehex timescale time duration id datahex` or `none` -/
 namespace DashLive.Driver.Events
-open DashLive.Driver DashLive.Events
+open DashLive.Driver DashLive.Events DashLive.Bits DashLive.Scte35
 
 def parseSeg (t : String) : Option Seg :=
   match t.splitOn ":" with
@@ -70,8 +71,144 @@ def emsgparse : List String → Option String
     | some b => some s!"{b.version} {b.flags} {toHex b.scheme} {toHex b.value} {b.timescale} {b.time} {b.duration} {b.id} {toHex b.data}"
   | _ => none
 
+
+
+
+
+/-! SCTE-35 channels (formats: see harness/c14_scte35.py)
+* `crc <hex>` → CRC-32/MPEG-2 of the bytes
+* `scte35enc <hdr> <cmd> <descs>` → hex of `BinarySignal.encode()`
+* `scte35parse <hex>` → `<hdr> <cmd> <descs> <section_length> <splice_command_length>
+  <splice_command_type> <descriptor_loop_length> <descriptor lengths> <crc> <crc_valid>` or `none`
+* `scte35sig <start> <interval> <count> <duration> <timescale> <program_id> <event_id> <pt>` → hex
+  of `create_binary_signal(event_id, pt).encode()` or `ValueError` -/
+
+def b01 (b : Bool) : String := if b then "1" else "0"
+
+def bytesToBits (l : List UInt8) : Bits := l.flatMap fun b => putBits 8 b.toNat
+
+def bitsToHex (b : Bits) : String :=
+  match toBytes b with
+  | some l => toHex (l.map UInt8.ofNat)
+  | none => "unaligned"
+
+def parseOptNat (t : String) : Option (Option Nat) :=
+  if t == "-" then some none else (parseNat t).map some
+
+def showOptNat : Option Nat → String
+  | none => "-"
+  | some v => toString v
+
+def parseSpliceTime (t : String) : Option SpliceTime := (parseOptNat t).map (⟨·⟩)
+
+def parseComponent (t : String) : Option Component :=
+  match t.splitOn ":" with
+  | [tag, st] => do some ⟨← parseNat tag, ← parseSpliceTime st⟩
+  | _ => none
+
+def parseCommand (t : String) : Option Command :=
+  match t.splitOn "," with
+  | ["null"] => some .null
+  | ["time", p] => (parseSpliceTime p).map .timeSignal
+  | ["insert", eid, cancel, oon, imm, st, comps, bd, upid, an, ae] => do
+    let st ← (if st == "x" then some none else (parseSpliceTime st).map some)
+    let comps ← (if comps == "x" then some [] else (comps.splitOn "|").mapM parseComponent)
+    let bd ← (if bd == "x" then some none else
+      match bd.splitOn ":" with
+      | [a, d] => do some (some (⟨← parseBool a, ← parseNat d⟩ : BreakDuration))
+      | _ => none)
+    some (.insert { eventId := ← parseNat eid, cancel := ← parseBool cancel,
+                    outOfNetwork := ← parseBool oon, immediate := ← parseBool imm,
+                    spliceTime := st, components := comps, breakDuration := bd,
+                    uniqueProgramId := ← parseNat upid, availNum := ← parseNat an,
+                    availsExpected := ← parseNat ae })
+  | _ => none
+
+def showSpliceTime (t : SpliceTime) : String := showOptNat t.pts
+
+def showCommand : Command → String
+  | .null => "null"
+  | .timeSignal t => s!"time,{showSpliceTime t}"
+  | .insert s =>
+    let st := match s.spliceTime with | none => "x" | some t => showSpliceTime t
+    let comps := if s.components.isEmpty then "x" else
+      joinWith "|" (s.components.map fun c => s!"{c.tag}:{showSpliceTime c.time}")
+    let bd := match s.breakDuration with | none => "x" | some b => s!"{b01 b.autoReturn}:{b.duration}"
+    s!"insert,{s.eventId},{b01 s.cancel},{b01 s.outOfNetwork},{b01 s.immediate},{st},{comps},{bd},{s.uniqueProgramId},{s.availNum},{s.availsExpected}"
+
+def parseDescriptor (t : String) : Option Descriptor :=
+  match t.splitOn "," with
+  | ["avail", i, p] => do some (.avail (← parseNat i) (← parseNat p))
+  | ["time", i, s, n, o] => do some (.time (← parseNat i) (← parseNat s) (← parseNat n) (← parseNat o))
+  | ["seg", i, ev, cancel, dnr, web, blk, arch, devr, dur, ut, upid, ty, sn, se, ssn, sse] => do
+    let dur ← (if dur == "x" then some none else (parseNat dur).map some)
+    let upid ← parseHex upid
+    some (.segmentation (← parseNat i)
+      { eventId := ← parseNat ev, cancel := ← parseBool cancel,
+        deliveryNotRestricted := ← parseBool dnr, webDeliveryAllowed := ← parseBool web,
+        noRegionalBlackout := ← parseBool blk, archiveAllowed := ← parseBool arch,
+        deviceRestrictions := ← parseNat devr, duration := dur, upidType := ← parseNat ut,
+        upid := upid.map (·.toNat), typeId := ← parseNat ty, segmentNum := ← parseNat sn,
+        segmentsExpected := ← parseNat se, subSegmentNum := ← parseNat ssn,
+        subSegmentsExpected := ← parseNat sse })
+  | _ => none
+
+def showDescriptor : Descriptor → String
+  | .avail i p => s!"avail,{i},{p}"
+  | .time i s n o => s!"time,{i},{s},{n},{o}"
+  | .segmentation i d =>
+    let dur := match d.duration with | none => "x" | some v => toString v
+    s!"seg,{i},{d.eventId},{b01 d.cancel},{b01 d.deliveryNotRestricted},{b01 d.webDeliveryAllowed},{b01 d.noRegionalBlackout},{b01 d.archiveAllowed},{d.deviceRestrictions},{dur},{d.upidType},{toHex (d.upid.map UInt8.ofNat)},{d.typeId},{d.segmentNum},{d.segmentsExpected},{d.subSegmentNum},{d.subSegmentsExpected}"
+
+def parseSignal (hdr cmd descs : String) : Option Signal :=
+  match hdr.splitOn "," with
+  | [tid, ssi, pi, sap, pv, enc, alg, adj, cw, tier] => do
+    let ds ← (if descs == "x" then some [] else (descs.splitOn ";").mapM parseDescriptor)
+    some { tableId := ← parseNat tid, sectionSyntaxIndicator := ← parseBool ssi,
+           privateIndicator := ← parseBool pi, sapType := ← parseNat sap,
+           protocolVersion := ← parseNat pv, encryptedPacket := ← parseBool enc,
+           encryptionAlgorithm := ← parseNat alg, ptsAdjustment := ← parseNat adj,
+           cwIndex := ← parseNat cw, tier := ← parseNat tier, command := ← parseCommand cmd,
+           descriptors := ds }
+  | _ => none
+
+def showSignal (s : Signal) : String :=
+  let ds := if s.descriptors.isEmpty then "x" else joinWith ";" (s.descriptors.map showDescriptor)
+  s!"{s.tableId},{b01 s.sectionSyntaxIndicator},{b01 s.privateIndicator},{s.sapType},{s.protocolVersion},{b01 s.encryptedPacket},{s.encryptionAlgorithm},{s.ptsAdjustment},{s.cwIndex},{s.tier} {showCommand s.command} {ds}"
+
+def crc : List String → Option String
+  | [hex] => do some (toString (Crc32.crc32 (bytesToBits (← parseHex hex))))
+  | _ => none
+
+def scte35enc : List String → Option String
+  | [hdr, cmd, descs] => do some (bitsToHex (← parseSignal hdr cmd descs).encode)
+  | _ => none
+
+def scte35parse : List String → Option String
+  | [hex] => do
+    match Signal.parse (bytesToBits (← parseHex hex)) with
+    | none => some "none"
+    | some p =>
+      let lens := if p.descriptorLengths.isEmpty then "x" else
+        joinWith "," (p.descriptorLengths.map toString)
+      some s!"{showSignal p.sig} {p.sectionLength} {p.spliceCommandLength} {p.spliceCommandType} {p.descriptorLoopLength} {lens} {p.crc} {b01 p.crcValid}"
+  | _ => none
+
+def scte35sig : List String → Option String
+  | [start, interval, count, duration, timescale, programId, eventId, pt] => do
+    let s : Sched := { start := ← parseInt start, interval := ← parseInt interval,
+                       count := ← parseInt count, duration := ← parseInt duration,
+                       timescale := ← parseInt timescale, version := 1, inband := true }
+    match scte35Payload s (← parseInt programId) (← parseInt eventId) (← parseInt pt) with
+    | none => some "ValueError"
+    | some b => some (bitsToHex b)
+  | _ => none
+
+
+
 /-- channels exported to `Main.lean` (collected by harness/gen_main.py) -/
 def channels : List (String × (List String → Option String)) :=
-  [("emsg", emsg), ("oob", oob), ("emsgbox", emsgbox), ("emsgparse", emsgparse)]
+  [("emsg", emsg), ("oob", oob), ("emsgbox", emsgbox), ("emsgparse", emsgparse),
+   ("crc", crc), ("scte35enc", scte35enc), ("scte35parse", scte35parse), ("scte35sig", scte35sig)]
 
 end DashLive.Driver.Events
